@@ -32,7 +32,7 @@ CLAIMS = {
             "DESIGN.md 5/C05", "status().waiting counting blocked getters is NOT claimed (status().waiting is always 0 in this implementation; reproduced, see DESIGN.md section 7 D7). remove/try_remove/timeout_remove, Pool::new/from_config and From<iterator> (the iterator retyped to the Vec it collects to) are under contract as well. "),
     "C06": ("close(): closes the semaphore, max_size 0, idle objects released and detached (isolation); get on a closed pool gives Closed on both acquisition paths and touches nothing; "
             "return to a closed pool discards; objects outliving the pool (Weak upgrade fails) are no-ops on the pool.",
-            "DESIGN.md 5/C06", "The race of close() with a concurrent resize() (closed pool ends with max_size > 0) is a reproduced defect, expressed as the obligations `C06 resize.closed_pool_stays_empty` and `C06 close.leaves_pool_closed_and_empty` of the interference variant, which fail and are recorded as KNOWN FINDINGS (DESIGN.md 0.5); waking of waiters by Semaphore::close is tokio's contract. "),
+            "DESIGN.md 5/C06", "The race of close() with a concurrent resize() (closed pool ends with max_size > 0) is a reproduced defect, expressed as the obligations `C06 resize.closed_pool_stays_empty` and `C06 close.leaves_pool_closed_and_empty` of the interference variant, which fail and are recorded as KNOWN FINDINGS (DESIGN.md 0.5); waking of waiters by Semaphore::close is tokio's contract. Limit found by the machinery's own tests (DESIGN.md 0.6, 13th wave): the other functions are proved under the rely that the environment's close() leaves a closed pool empty, which is the very guarantee those findings show to be false in a race; a further C06 violation that needs close() to race with an in-flight get() (one stored seeded change) is therefore NOT reported. "),
     "C07": ("resize(): max_size set, idle surplus released (and detached), objects in use untouched, grow adds exactly the new capacity, order kept, debt invariant preserved under interference. "
             "The exact free-permit equation P = max(0, max_size - outstanding) is a KNOWN FINDING (fails on the real code, replays in /verif/replay).",
             "DESIGN.md 5/C07", ""),
@@ -139,7 +139,7 @@ def main():
                  "Exit codes of every check: 0 = every obligation of the property discharged on the bodies extracted from the current /repo tree (KNOWN-FINDING lines do not alarm); "
                  "1 = VIOLATION: a named obligation that the contracts of the unchanged tree discharge fails; 2 = undecided, never an alarm: lost anchor (a function, struct, field or parameter a contract is stated over is gone), "
                  "a construct outside the extraction rules, a call no model specifies (vocabulary guard), a failure at or after a new / rewritten loop that has no loop contract of its own, a composition of contracted functions re-implemented on the primitives, work moved across a call boundary, solver resource limit, vacuity guard. "
-                 "tools/regress.py replays 98 seeded changes and 145 behaviour-preserving refactorings against these rules (DESIGN.md 0.6).",
+                 "tools/regress.py replays 106 seeded changes and 145 behaviour-preserving refactorings against these rules (DESIGN.md 0.6).",
         "not_applicable": na,
     }
     json.dump(m, open(os.path.join(VERIF, "MANIFEST.json"), "w"), indent=1)
